@@ -2,7 +2,7 @@
    Reference encoders (rec4 / recs4, rec5, enc_did / enc_dids, lenpref, big-endian fields) are in Proofs/C02_lemmas.v. *)
 From Coq Require Import ZArith List Bool String.
 From UDS Require Import Lib.Bytes Lib.ErrM Lib.PyOps Model.Message Model.Client Model.Services Model.Svc_Memory Model.Svc_Did
-  Model.Svc_File Model.Svc_Dtc Proofs.Bytes_lemmas Proofs.History_lemmas Proofs.C02_lemmas Proofs.C02b_lemmas Proofs.C02c_lemmas Proofs.C14_lemmas.
+  Model.Svc_File Model.Svc_Dtc Proofs.Bytes_lemmas Proofs.History_lemmas Proofs.C02_lemmas Proofs.C02b_lemmas Proofs.C02c_lemmas Proofs.C02d_lemmas Proofs.C14_lemmas.
 Import ListNotations.
 Open Scope Z_scope.
 
@@ -237,7 +237,69 @@ Theorem C02_wwh_obd_permanent : forall cfg a fg sa fmt l n,
 Proof. exact wwh_obd_permanent_decode. Qed.
 Print Assumptions C02_wwh_obd_permanent.
 
-(* C02_partial: the RequestFileTransfer composite and the Authentication task layouts are decoded field by field by the
-   functions whose primitive steps are proved above (take_num, extract_param, sub3/at_); their end-to-end statement is checked by
-   the structured-valid correspondence against the reference server encoder tools/harness/respspec.py, not yet by a Coq theorem.
-   Report types 0x1A and 0x56 have no decoder in this version of the library (the response is returned undecoded). *)
+(* ---- RequestFileTransfer positive responses, every mode of operation (lengthFormatIdentifier 1..8, any maxNumberOfBlockLength that
+   fits, sizes in 1..8 bytes), with the padding the service tolerates ---------------------------------------------------------- *)
+Theorem C02_file_transfer_add_replace : forall cfg lfid maxlen dfi moop k, 1 <= lfid <= 8 -> 0 <= maxlen < 256 ^ lfid ->
+  moop = 1 \/ moop = 3 -> (k = 0%nat \/ tol_pad cfg = true) ->
+  rft_interpret_raw cfg (rft_head moop lfid maxlen dfi ++ repeat 0 k) = (moop, inr [moop; maxlen; dfi; -1; -1; -1; -1]).
+Proof. exact rft_add_replace_decode. Qed.
+Theorem C02_file_transfer_delete : forall cfg k, (k = 0%nat \/ tol_pad cfg = true) ->
+  rft_interpret_raw cfg ([2] ++ repeat 0 k) = (2, inr [2; -1; -1; -1; -1; -1; -1]).
+Proof. exact rft_delete_decode. Qed.
+Theorem C02_file_transfer_read_file : forall cfg lfid maxlen dfi n unc comp k, 1 <= lfid <= 8 -> 0 <= maxlen < 256 ^ lfid -> 1 <= n <= 8 ->
+  0 <= unc < 256 ^ n -> 0 <= comp < 256 ^ n -> (k = 0%nat \/ tol_pad cfg = true) ->
+  rft_interpret_raw cfg (rft_head 4 lfid maxlen dfi ++ be_enc 2 n ++ be_enc (Z.to_nat n) unc ++ be_enc (Z.to_nat n) comp ++ repeat 0 k)
+  = (4, inr [4; maxlen; dfi; unc; comp; -1; -1]).
+Proof. exact rft_read_file_decode. Qed.
+Print Assumptions C02_file_transfer_read_file.
+Theorem C02_file_transfer_read_dir : forall cfg lfid maxlen n unc k, 1 <= lfid <= 8 -> 0 <= maxlen < 256 ^ lfid -> 1 <= n <= 8 ->
+  0 <= unc < 256 ^ n -> (k = 0%nat \/ tol_pad cfg = true) ->
+  rft_interpret_raw cfg (rft_head 5 lfid maxlen 0 ++ be_enc 2 n ++ be_enc (Z.to_nat n) unc ++ repeat 0 k)
+  = (5, inr [5; maxlen; 0; -1; -1; unc; -1]).
+Proof. exact rft_read_dir_decode. Qed.
+Theorem C02_file_transfer_resume : forall cfg lfid maxlen dfi pos k, 1 <= lfid <= 8 -> 0 <= maxlen < 256 ^ lfid ->
+  0 <= pos < 256 ^ 8 -> (k = 0%nat \/ tol_pad cfg = true) ->
+  rft_interpret_raw cfg (rft_head 6 lfid maxlen dfi ++ be_enc 8 pos ++ repeat 0 k) = (6, inr [6; maxlen; dfi; -1; -1; -1; pos]).
+Proof. exact rft_resume_decode. Qed.
+
+(* ---- Authentication positive responses, every task: the length-prefixed strings (any length below 65536) and the 16-byte algorithm
+   indicator come back as sent, each in its own field ------------------------------------------------------------------------- *)
+Theorem C02_authentication_plain : forall sub rv r, sub = 0 \/ sub = 4 \/ sub = 8 -> p_data r = [sub; rv] ->
+  auth_interpret sub r = inr (sub :: rv :: none7).
+Proof. exact auth_plain_decode. Qed.
+Theorem C02_authentication_unidirectional : forall a b rv r, Z.of_nat (List.length a) < 65536 -> Z.of_nat (List.length b) < 65536 ->
+  p_data r = [1; rv] ++ lenpref a ++ lenpref b ->
+  auth_interpret 1 r = inr (1 :: rv :: enc_obytes (Some a) ++ enc_obytes (Some b) ++ enc_obytes None ++ enc_obytes None ++ enc_obytes None
+                              ++ enc_obytes None ++ enc_obytes None).
+Proof. exact auth_unidirectional_decode. Qed.
+Theorem C02_authentication_bidirectional : forall a b c e rv r,
+  Z.of_nat (List.length a) < 65536 -> Z.of_nat (List.length b) < 65536 -> Z.of_nat (List.length c) < 65536 -> Z.of_nat (List.length e) < 65536 ->
+  p_data r = [2; rv] ++ lenpref a ++ lenpref b ++ lenpref c ++ lenpref e ->
+  auth_interpret 2 r = inr (2 :: rv :: enc_obytes (Some a) ++ enc_obytes (Some e) ++ enc_obytes (Some b) ++ enc_obytes (Some c) ++ enc_obytes None
+                              ++ enc_obytes None ++ enc_obytes None).
+Proof. exact auth_bidirectional_decode. Qed.
+Print Assumptions C02_authentication_bidirectional.
+Theorem C02_authentication_proof_of_ownership : forall a rv r, Z.of_nat (List.length a) < 65536 ->
+  p_data r = [3; rv] ++ lenpref a ->
+  auth_interpret 3 r = inr (3 :: rv :: enc_obytes None ++ enc_obytes None ++ enc_obytes None ++ enc_obytes None ++ enc_obytes (Some a)
+                              ++ enc_obytes None ++ enc_obytes None).
+Proof. exact auth_proof_of_ownership_decode. Qed.
+Theorem C02_authentication_request_challenge : forall a b al rv r, Z.of_nat (List.length a) < 65536 -> Z.of_nat (List.length b) < 65536 ->
+  List.length al = 16%nat -> p_data r = [5; rv] ++ al ++ lenpref a ++ lenpref b ->
+  auth_interpret 5 r = inr (5 :: rv :: enc_obytes (Some a) ++ enc_obytes None ++ enc_obytes None ++ enc_obytes None ++ enc_obytes None
+                              ++ enc_obytes (Some al) ++ enc_obytes (Some b)).
+Proof. exact auth_request_challenge_decode. Qed.
+Theorem C02_authentication_verify_unidirectional : forall a al rv r, Z.of_nat (List.length a) < 65536 ->
+  List.length al = 16%nat -> p_data r = [6; rv] ++ al ++ lenpref a ->
+  auth_interpret 6 r = inr (6 :: rv :: enc_obytes None ++ enc_obytes None ++ enc_obytes None ++ enc_obytes None ++ enc_obytes (Some a)
+                              ++ enc_obytes (Some al) ++ enc_obytes None).
+Proof. exact auth_verify_pown_unidirectional_decode. Qed.
+Theorem C02_authentication_verify_bidirectional : forall a b al rv r, Z.of_nat (List.length a) < 65536 -> Z.of_nat (List.length b) < 65536 ->
+  List.length al = 16%nat -> p_data r = [7; rv] ++ al ++ lenpref a ++ lenpref b ->
+  auth_interpret 7 r = inr (7 :: rv :: enc_obytes None ++ enc_obytes None ++ enc_obytes None ++ enc_obytes (Some a) ++ enc_obytes (Some b)
+                              ++ enc_obytes (Some al) ++ enc_obytes None).
+Proof. exact auth_verify_pown_bidirectional_decode. Qed.
+
+(* Every positive-response decoder of the library now has its end-to-end statement (session timing: C10_scaled; memory echo: C14_echo;
+   download / upload block length: C02_block_length; DIDs: C02_did_values; ReadDTCInformation: above).  Report types 0x1A and 0x56 have
+   no decoder in this version of the library (the response is returned undecoded). *)
